@@ -15,7 +15,7 @@ type raceLog struct {
 	prop string
 }
 
-func newRaceLog(path string) *raceLog { return &raceLog{path: path, prop: os.Args[2]} }
+func newRaceLog(path, prop string) *raceLog { return &raceLog{path: path, prop: prop} }
 
 func (r *raceLog) read() string {
 	st, err := os.Stat(r.path)
